@@ -335,14 +335,33 @@ def translate():
     for n in (ast.walk(feed_fn) if feed_fn else []):
         if isinstance(n, ast.Try) and len(n.handlers) >= 2:
             structure['feed_handlers'] = handler_names(n)
+    def inline_self_calls(stmts, cls, depth=3):
+        """statements of a block, with `self.<method>(...)` expression statements replaced by the body of
+        that method of the same class (the state checks / the socket write of `write()` may sit in helpers)"""
+        out = []
+        for st in stmts:
+            callee = None
+            if (depth > 0 and isinstance(st, ast.Expr) and isinstance(st.value, ast.Call)
+                    and isinstance(st.value.func, ast.Attribute) and isinstance(st.value.func.value, ast.Name)
+                    and st.value.func.value.id == 'self'):
+                callee = find_func(cls, st.value.func.attr)
+            if callee is not None:
+                body = [b for b in callee.body
+                        if not (isinstance(b, ast.Expr) and isinstance(b.value, ast.Constant) and isinstance(b.value.value, str))]
+                out += inline_self_calls(body, cls, depth - 1)
+            else:
+                out.append(st)
+        return out
+
     write_fn = find_func(se_cls, 'write') if se_cls else None
     for n in (ast.walk(write_fn) if write_fn else []):
         if isinstance(n, ast.With) and any('_lock' in ast.unparse(i.context_expr) for i in n.items):
-            for st in n.body:
+            locked_body = inline_self_calls(n.body, se_cls)
+            for st in locked_body:
                 if isinstance(st, ast.If):
                     raised = [ast.unparse(r.exc.func) for r in ast.walk(st) if isinstance(r, ast.Raise) and isinstance(r.exc, ast.Call)]
                     structure['write_checks'].append((ast.unparse(st.test), raised[0] if raised else '?'))
-            structure['sendall_under_lock'] = any('sendall' in c for c in calls_in(n.body))
+            structure['sendall_under_lock'] = any(c.endswith('.sendall') for c in calls_in(locked_body))
     for name, key in (('_send_pong', 'send_pong_handlers'), ('_check_auto_ping', 'auto_ping_handlers')):
         fn = find_func(se_cls, name) if se_cls else None
         for n in (ast.walk(fn) if fn else []):
